@@ -13,7 +13,11 @@ def encode_timedelta(obj):
 
 def encode_datetime(obj):
     units, _ = np.datetime_data(obj.dtype)
-    reference = obj[0]
+    # offsets are relative to the first valid element (works for any number of
+    # dimensions, and NaT must not become the reference)
+    flat = obj.ravel()
+    valid = flat[~np.isnat(flat)]
+    reference = valid[0] if valid.size else np.datetime64(0, units)
 
     encoding = {"reference": str(reference), "units": units}
     encoded = (obj - reference).astype("int64").tolist()
